@@ -42,6 +42,7 @@ type Exch struct {
 	API       int    `json:"api,omitempty"`        // 0 ExchangeWithConn, 1 ExchangeWithConnContext(ctx deadline), 2 WriteMsg+ReadMsg, 3 Exchange (the library dials, exchanges, closes), 4 ExchangeContext; 3 and 4 need the socket seam of the instrumented build and fall back to 0 and 1 without it
 	Dial      string `json:"dial,omitempty"`       // API 3/4: "" the connection is there after DialMs | refused | blackhole (no answer to the connection attempt: the dial must give up by the exchange's deadline)
 	DialMs    int    `json:"dial_ms,omitempty"`    // API 3/4: simulated time the connection attempt takes
+	TOKind    int    `json:"to_kind,omitempty"`    // how the client is given its time limit: 0 Client.Timeout; 1 Timeout left at zero, Read/Write/DialTimeout set to the same value; 2 nothing set (the library's default of two seconds applies)
 	QCase     bool   `json:"qcase,omitempty"`      // the query name is written in mixed case and the handler answers with the name in lower case (a handler that canonicalises what it echoes)
 	CliUDP    int    `json:"cli_udp,omitempty"`    // udp: Client.UDPSize / Conn.UDPSize (0 = the library's default of 512 octets)
 	OptSize   int    `json:"opt_size,omitempty"`   // udp: the query carries an OPT record advertising this receive size (0 = no OPT)
@@ -189,12 +190,15 @@ func Gen(seed uint64, tier string) any {
 			}
 			e.CliUDP = 65535
 			e.QCase = core.Chance(r, 15)
+			if core.Chance(r, 30) {
+				e.TOKind = 1 + r.IntN(2)
+			}
 			if c.Net == "udp" && core.Chance(r, 35) {
 				// receive buffers as applications configure them: the default, small EDNS sizes, below the 512-octet minimum
 				e.CliUDP = core.Pick(r, 0, 0, 100, 511, 512, 1232, 4096)
 				e.OptSize = core.Pick(r, 0, 0, 100, 300, 511, 512, 1232, 4096)
 			}
-			e.H.Kind = core.Pick(r, "normal", "normal", "normal", "normal", "wrongid", "twice", "silent", "oversize", "wrongthenright", "raw", "rawoversize")
+			e.H.Kind = core.Pick(r, "normal", "normal", "normal", "normal", "wrongid", "twice", "silent", "oversize", "wrongthenright", "raw", "rawoversize", "unpackable", "closethenwrite")
 			e.H.Steps = r.IntN(4)
 			if core.Chance(r, 25) {
 				e.H.SleepMs = core.Pick(r, 1, 20, 400, 3000)
@@ -569,6 +573,33 @@ func (x *run) ServeDNS(w dns.ResponseWriter, r *dns.Msg) {
 		}
 		send(mk(r.Id, p.ReplySize))
 	case "silent":
+	case "unpackable":
+		// a reply that cannot be put on the wire (a character-string of 256 octets): an error for the
+		// handler, nothing for the client - then the proper reply
+		bad := mk(r.Id, 0)
+		bad.Answer = append(bad.Answer, &dns.TXT{Hdr: dns.RR_Header{Name: r.Question[0].Name, Rrtype: dns.TypeTXT, Class: dns.ClassINET}, Txt: []string{strings.Repeat("x", 256)}})
+		err := w.WriteMsg(bad)
+		k.Lock()
+		x.res.Stats["oracle.F1_unpackable_reply_refused"]++
+		if err == nil {
+			x.res.Fail("F1", "unpackable-reply-accepted", "WriteMsg returned nil for a reply that holds a 256-octet character-string")
+		}
+		k.Unlock()
+		send(mk(r.Id, p.ReplySize))
+	case "closethenwrite":
+		// the handler closes the connection and then tries to answer all the same
+		send(mk(r.Id, p.ReplySize))
+		w.Close()
+		m2 := mk(r.Id, 0)
+		err1 := w.WriteMsg(m2)
+		b2, _ := m2.Pack()
+		_, err2 := w.Write(b2)
+		k.Lock()
+		x.res.Stats["oracle.F1_write_after_close_refused"]++
+		if err1 == nil || err2 == nil {
+			x.res.Fail("F1", "write-after-close-accepted", "after ResponseWriter.Close, WriteMsg returned %v and Write returned %v: both must refuse", err1, err2)
+		}
+		k.Unlock()
 	case "wrongid":
 		send(mk(r.Id^0x8000, p.ReplySize)) // an ID no exchange of this run uses
 	case "wrongthenright":
@@ -681,7 +712,12 @@ type dialRec struct {
 //go:norace
 func (x *run) dial(d *net.Dialer, ctx context.Context, network, addr string) (net.Conn, error) {
 	k := x.k
-	tag, _ := d.LocalAddr.(dialTag)
+	tag, tagged := d.LocalAddr.(dialTag)
+	if _, port, err := net.SplitHostPort(addr); !tagged && err == nil {
+		if n, _ := strconv.Atoi(port); n >= 20000 {
+			tag = dialTag{(n - 20000) / 64, (n - 20000) % 64}
+		}
+	}
 	k.Lock()
 	rec := x.dialed[tag.String()]
 	if rec != nil {
@@ -828,12 +864,20 @@ func (c *clientTask) RunEvent(time.Time) {
 		ex.reqBytes = clone(b)
 		ex.guar = guar
 		k.Unlock()
-		cl := &dns.Client{Timeout: time.Duration(e.TimeoutMs) * time.Millisecond, UDPSize: uint16(e.CliUDP)}
+		eff := time.Duration(e.TimeoutMs) * time.Millisecond // the time limit in force for this exchange
+		cl := &dns.Client{Timeout: eff, UDPSize: uint16(e.CliUDP)}
 		if e.ReadTOMs > 0 {
 			cl.ReadTimeout, cl.WriteTimeout = time.Duration(e.ReadTOMs)*time.Millisecond, time.Duration(e.ReadTOMs)*time.Millisecond
 		}
+		switch e.TOKind {
+		case 1:
+			cl.Timeout, cl.ReadTimeout, cl.WriteTimeout, cl.DialTimeout = 0, eff, eff, eff
+		case 2:
+			cl.Timeout, cl.ReadTimeout, cl.WriteTimeout, cl.DialTimeout = 0, 0, 0, 0
+			eff = 2 * time.Second // the documented default
+		}
 		start := time.Now()
-		deadline := start.Add(cl.Timeout)
+		deadline := start.Add(eff)
 		rcvStart := 0
 		if dconn != nil {
 			k.Lock()
@@ -853,13 +897,21 @@ func (c *clientTask) RunEvent(time.Time) {
 			// a caller-supplied Dialer replaces the one the client would derive from its Timeout:
 			// give it the same bound (always, where nothing else would end a black-holed attempt)
 			cl.Dialer = &net.Dialer{LocalAddr: dialTag{c.ci, ei}}
+			dialLimit := time.Duration(0) // what bounds the connection attempt by itself
 			if (c.ci+ei)%2 == 0 || e.Dial == "blackhole" {
-				cl.Dialer.Timeout = cl.Timeout
+				cl.Dialer.Timeout = eff
+				dialLimit = eff
+			}
+			addr := "10.0.0.1:53"
+			if (c.ci+ei)%3 == 1 {
+				// no Dialer of the caller's: the client derives one from its own time limits
+				// (the exchange is then recognised by the port it dials)
+				cl.Dialer, dialLimit = nil, eff
+				addr = "10.0.0.1:" + strconv.Itoa(20000+c.ci*64+ei)
 			}
 			k.Lock()
 			x.dialed[tok(c.ci, ei)] = &dialRec{plan: e, home: plan.Home}
 			k.Unlock()
-			addr := "10.0.0.1:53"
 			if api == 4 {
 				ctx := common.NewCtx(k, time.Duration(e.TimeoutMs)*time.Millisecond/2, "cli")
 				if dl, ok := ctx.Deadline(); ok {
@@ -875,17 +927,17 @@ func (c *clientTask) RunEvent(time.Time) {
 			// the deadline of the exchange proper is set when the connection is there (the timeout
 			// bounds the dial and, again, the write and read that follow); a context bounds both
 			if !d.doneT.IsZero() {
-				if dl := d.doneT.Add(cl.Timeout); api == 3 || dl.Before(deadline) {
+				if dl := d.doneT.Add(eff); api == 3 || dl.Before(deadline) {
 					deadline = dl
 				}
 			} else if api == 3 {
 				// no connection: only the dialer's own timeout bounds the attempt
 				deadline = start.Add(24 * time.Hour)
-				if cl.Dialer.Timeout > 0 {
-					deadline = start.Add(cl.Dialer.Timeout)
+				if dialLimit > 0 {
+					deadline = start.Add(dialLimit)
 				}
-			} else if cl.Dialer.Timeout > 0 && start.Add(cl.Dialer.Timeout).Before(deadline) {
-				deadline = start.Add(cl.Dialer.Timeout)
+			} else if dialLimit > 0 && start.Add(dialLimit).Before(deadline) {
+				deadline = start.Add(dialLimit)
 			}
 			x.bump("oracle.X2_deadline_respected")
 			if over := time.Since(deadline); over > time.Millisecond {
